@@ -82,7 +82,7 @@ Named == { G(k, 0, 0) : k \in {"H", "X", "Y", "Z", "S", "T", "CX", "CZ", "SWAP"}
 Rotations == { G(k, ph, dg) : k \in {"Rx", "Ry", "Rz", "CU1", "CRz", "CRx"}, ph \in Phases, dg \in 0..1 }
 Controlled == { CT(sub, 0, sd) : sub \in {"X", "Y", "Z", "H", "S", "T"}, sd \in 0..1 } \cup { CT("Rz", ph, 0) : ph \in Phases }
 Preps == { KB(k, b) : k \in {"Ket", "Bra"}, b \in { <<0>>, <<1>>, <<1, 0>>, <<0, 1>> } }
-Scalars == { SC(1, 0, 1), SC(0, 1, 0), SC(1, 1, 2) }
+Scalars == { SC(1, 0, 1), SC(0, 1, 0), SC(1, 1, 2), [SC(0, 1, 0) EXCEPT !.sub = "sqrt"], [SC(1, 1, 0) EXCEPT !.sub = "sqrt"] }
 Menu == Named \cup Rotations \cup Controlled \cup Preps \cup Scalars
 Init == c \in { [dom |-> n, layers |-> <<>>] : n \in 0..MaxQ }
 Build == /\ Len(c.layers) < MaxLayers
